@@ -213,6 +213,12 @@ def run_property(mod, tier, seed, max_seconds=None, replay=None):
     byhit = {}
     for sig, case, msg, cnt, dg, hit in listed:
         byhit.setdefault(hit, []).append('%s x%d' % (sig, cnt))
+        # keep one replayable artefact per listed finding (written once, never overwritten)
+        kpath = os.path.join(rdir, 'known-%s-%s.json' % (pid, hashlib.sha1(sig.encode()).hexdigest()[:8]))
+        if not replay and not os.path.exists(kpath) and not os.environ.get('MCX_EVIDENCE_DIR'):
+            with open(kpath, 'w') as f:
+                json.dump(dict(property=pid, signature=sig, message=msg, case=case, known_finding=hit),
+                          f, indent=1, sort_keys=True, default=_jd)
     for hit, sigs in byhit.items():
         out_lines.append('KNOWN-FINDING: property=%s %s [%s]' % (pid, hit, ', '.join(sigs)))
     nviol = 0
